@@ -262,6 +262,7 @@ package keeper
 //@ loop 1 invariant [nothing-slashed-for-real] S == old(S) && E == old(E) && X == old(X)
 //@ loop 2 invariant [nothing-slashed-for-real] S == old(S) && E == old(E) && X == old(X)
 //@ ensures [frame] S == old(S) && E == old(E) && X == old(X)
+//@ ensures [one-truncation-of-the-total] result == power + sdk.TokensToConsensusPower(undelegationsInTokens.Add(redelegationsInTokens), powerReduction)
 
 //@ func Keeper.SlashValidator
 //@ let a := providerAddr.ToSdkConsAddr()
@@ -877,6 +878,8 @@ package keeper
 //@ loop 1 invariant [store-kept] S == old(S)
 //@ ensures [never-fails] result == nil
 //@ ensures [queue-kept-or-sent] S[providertypes.PendingVSCsKey(consumerId)] == old(S[providertypes.PendingVSCsKey(consumerId)]) || S[providertypes.PendingVSCsKey(consumerId)] == bnil
+//@ ensures [failed-send-keeps-the-queue] $SendIBCPacket.called && $SendIBCPacket.ret != nil ==> S[providertypes.PendingVSCsKey(consumerId)] == old(S[providertypes.PendingVSCsKey(consumerId)])
+//@ ensures [only-an-expired-client-spares-the-consumer] $SendIBCPacket.called && $SendIBCPacket.ret != nil && !errors.Is($SendIBCPacket.ret, clienttypes.ErrClientNotActive) ==> $StopAndPrepareForConsumerRemoval.called && $StopAndPrepareForConsumerRemoval.consumerId == consumerId
 
 //@ func Keeper.SendVSCPackets
 //@ precall SendVSCPacketsToChain [launched-only] k.GetConsumerPhase(ctx, $SendVSCPacketsToChain.consumerId) == providertypes.CONSUMER_PHASE_LAUNCHED
@@ -1134,3 +1137,36 @@ package keeper
 //@ ensures [read-only] S == old(S) && E == old(E) && X == old(X)
 //@ ensures [key-assignment-exported] result != nil && result.ValidatorConsumerPubkeys == k.GetAllValidatorConsumerPubKeys(ctx, nil) && result.ValidatorsByConsumerAddr == k.GetAllValidatorsByConsumerAddr(ctx, nil) && result.ConsumerAddrsToPruneV2 == consumerAddrsToPrune
 //@ ensures [ids-and-heights-exported] result != nil && result.ValsetUpdateId == k.GetValidatorSetUpdateId(ctx) && result.ValsetUpdateIdToHeight == k.GetAllValsetUpdateBlockHeights(ctx) && result.ConsumerStates == consumerStates
+
+// ---------------------------------------------------------------- third round additions
+
+//@ func Keeper.UpdateAllowlist
+//@ ensures [old-entries-dropped-first] $DeleteAllowlist.called && $DeleteAllowlist.consumerId == consumerId
+//@ loop 1 step [listed-address-indexed] sdk.ConsAddressFromBech32(address).1 == nil ==> k.IsAllowlisted(ctx, consumerId, types.NewProviderConsAddress(sdk.ConsAddressFromBech32(address).0))
+//@ ensures [no-deps] E == old(E) && X == old(X)
+
+//@ func Keeper.UpdateDenylist
+//@ ensures [old-entries-dropped-first] $DeleteDenylist.called && $DeleteDenylist.consumerId == consumerId
+//@ loop 1 step [listed-address-indexed] sdk.ConsAddressFromBech32(address).1 == nil ==> k.IsDenylisted(ctx, consumerId, types.NewProviderConsAddress(sdk.ConsAddressFromBech32(address).0))
+//@ ensures [no-deps] E == old(E) && X == old(X)
+
+//@ func Keeper.UpdatePrioritylist
+//@ ensures [old-entries-dropped-first] $DeletePrioritylist.called && $DeletePrioritylist.consumerId == consumerId
+//@ loop 1 step [listed-address-indexed] sdk.ConsAddressFromBech32(address).1 == nil ==> k.IsPrioritylisted(ctx, consumerId, types.NewProviderConsAddress(sdk.ConsAddressFromBech32(address).0))
+//@ ensures [no-deps] E == old(E) && X == old(X)
+
+//@ func Keeper.ComputeConsumerTotalVotingPower
+//@ let gv := old(k.GetConsumerValSet(ctx, consumerId))
+//@ loop 1 invariant [idx] 0 <= _i && _i <= len(gv.0)
+//@ loop 1 invariant [pure] S == old(S) && E == old(E) && X == old(X)
+//@ loop 1 step [only-eligible-validators-count] (k.IsEligibleForConsumerRewards(ctx, v.JoinHeight) ==> totalPower == prev(totalPower) + v.Power) && (!k.IsEligibleForConsumerRewards(ctx, v.JoinHeight) ==> totalPower == prev(totalPower))
+//@ ensures [unreadable-set-counts-nothing] gv.1 != nil ==> totalPower == 0
+//@ ensures [pure] S == old(S) && E == old(E) && X == old(X)
+
+// the iteration of the staking module over its bonded validators (a callback passed into a dependency) is outside
+// the engine's subset: the capped total is a trusted uninterpreted function of the state
+//@ func Keeper.TotalBondedTokens pure modular trusted
+
+//@ func Keeper.BondedRatio
+//@ ensures [over-the-capped-total] result1 == nil ==> $TotalBondedTokens.called && $TotalBondedTokens.ret1 == nil && $StakingTokenSupply.called && $StakingTokenSupply.ret1 == nil
+//@ ensures [def] result1 == nil && $StakingTokenSupply.called && $TotalBondedTokens.called && $StakingTokenSupply.ret0 > 0 ==> result0 == math.LegacyNewDecFromInt($TotalBondedTokens.ret0).QuoInt($StakingTokenSupply.ret0)
